@@ -164,7 +164,7 @@ func TestBlockDeterminism(t *testing.T) {
 			suicide := false
 			for i := 0; i < ntx; i++ {
 				var g *chainsim.Tx
-				class := rapid.IntRange(0, 10).Draw(t, "class")
+				class := rapid.IntRange(0, 12).Draw(t, "class")
 				if b == 0 && i < 2 {
 					class = 0
 				}
@@ -178,6 +178,17 @@ func TestBlockDeterminism(t *testing.T) {
 				case 9:
 					if g = s.GenUpgradeBy(t); g == nil {
 						g = s.GenAccountTx(t, kindsHere)
+					}
+				case 11:
+					// a non-native token enters the confidential pool / moves on / leaves it (fee in the native coin, paid by the signer)
+					if g = s.GenTokenDeposit(t); g == nil {
+						g = s.GenAccountTx(t, kindsHere)
+					}
+				case 12:
+					if g = s.GenTokenSpend(t); g == nil {
+						if g = s.GenTokenDeposit(t); g == nil {
+							g = s.GenAccountTx(t, kindsHere)
+						}
 					}
 				case 10:
 					// a validator-signed rotation of the upgrade signer set (upgrades signed by the old set may be pending)
